@@ -47,6 +47,26 @@ CLAIMS.update({
         "with > 4 records, > 2 axes. The MIR translator's std whitelist (Ord::max/min/clamp, PartialOrd on derived newtypes, wrapping ops, i64::from) "
         "is hand-written and validated per run against native execution on ~180 inputs.",
         "DESIGN.md section 6, C13", TECH_SMT + "; " + TECH_KANI),
+    "C09": (
+        "Bounded solver verdict for the arithmetic every written font is assembled from - NOT for FontBuilder itself: table_checksum == sum of "
+        "big-endian words mod 2^32 (0, 1, 3, 4 words, all byte values); the loca writer round-trips through the loca reader for 3 arbitrary "
+        "u32 offsets in both formats and REFUSES odd or > 131070 offsets in the short format instead of truncating; HeadTable::write leaves "
+        "checkSumAdjustment zero and its placeholder patches exactly bytes 8..12; by MIR->SMT for all inputs: long_align/word_align return the "
+        "least multiple >= n (and the overflow-checked add panics rather than shortens for n near usize::MAX), max_power_of_2 gives floor(log2 n) "
+        "for every u16, i.e. searchRange/entrySelector are the spec values.",
+        "Outside (and the larger part of the property): FontBuilder directory order/offsets/padding/whole-file adjustment (BTreeMap: 25 min no answer), "
+        "the glyf writer, CFF offsets, cross-table consistency of subsets/instances/WOFF2 reconstructions. This is the thinnest claim; see DESIGN.md section 9.",
+        "DESIGN.md section 6, C09", TECH_KANI + "; " + TECH_SMT),
+    "C15": (
+        "Bounded solver verdict: bytes -> read -> write is byte-exact (up to documented normalisations) for every head (54 B), hhea (36 B), "
+        "maxp 1.0/0.5, cvt (0-3 values), name format 0 and format 1 (2 records, 1 lang tag, stringOffset placeholder back-patched) table that "
+        "parses; value -> write -> read identity for TableRecord/LongHorMetric/IndexToLocFormat; placeholders: exact fill lands at the reserved "
+        "offset, over-filling a reservation in one or several writes returns PlaceholderMismatch and touches nothing outside; CFF DICT operands "
+        "through hook H2: EVERY i32 integer and offset operand survives write->read with the shortest legal encoding and exact consumption, and "
+        "every integer lead byte decodes per the DICT table; offset_size thresholds by MIR->SMT for all usize.",
+        "Outside: whole CFF/CFF2 tables, DICT/INDEX/charset/FDSelect writers, Real operands, OS/2, post, cmap owned writer, glyf records, item variation "
+        "store (its writer defect is recorded by reading + native run only, DESIGN.md section 7), HmtxTable::write (CBMC out of memory).",
+        "DESIGN.md section 6, C15", TECH_KANI + "; " + TECH_SMT),
     "C10": (
         "Bounded solver verdict: for an sfnt with 2 table records (3 thorough), a TTC with 2 members at symbolic offsets, and a WOFF file "
         "with 2 uncompressed directory entries (3 thorough), with every byte other than the record counts symbolic, table_data(tag) for "
